@@ -16,7 +16,7 @@ TOOL = 4
 
 
 class Scheduler:
-    def __init__(self, pkg_dir: str, granularity: str = "line", grace: float = 0.5):
+    def __init__(self, pkg_dir: str, granularity: str = "line", grace: float = 0.005):
         self.pkg = os.path.realpath(pkg_dir) + os.sep
         self.gran = granularity
         self.grace = grace
